@@ -1183,10 +1183,15 @@ fn verif_c16_isolation() {
 enum WOp {
     /// clock + 1 s, then a digest with fresh heartbeats of P and Q
     Tick,
-    /// clock + 1 s, fresh heartbeat of Q only
-    TickQ,
-    /// clock + 60 s without any heartbeat
+    /// clock + 60 s without any heartbeat (everybody known falls silent)
     Silence,
+    /// clock + 60 s, then one fresh heartbeat of P only / of Q only (the other one is silent)
+    SilenceButP,
+    SilenceButQ,
+    /// two fresh heartbeats 1 s apart of P / Q / a third member R (possibly unknown so far)
+    ReviveP,
+    ReviveQ,
+    ReviveR,
     /// P's copy learns ready=1 at its next version
     SetReady,
     /// P's copy learns that `ready` expires (DeleteAfterTtl at its next version)
@@ -1195,6 +1200,9 @@ enum WOp {
     DelReady,
     /// P's copy learns an unrelated key at its next version
     SetOther,
+    /// an ACK resets P's copy to a LOWER max version (delta from version 0 with a GC watermark
+    /// above everything the copy knows, carrying one key-value at version 1)
+    ResetLower,
     /// the local node writes a key of its own
     SelfSet,
     /// tombstone / TTL GC pass over every copy
@@ -1238,18 +1246,45 @@ async fn c13_run(seq: &[WOp], with_pred: bool, r: &mut Report) {
     ops.extend_from_slice(seq);
     for (i, op) in ops.iter().enumerate() {
         match *op {
-            WOp::Tick | WOp::TickQ => {
-                tokio::time::advance(Duration::from_millis(1000)).await;
+            WOp::Tick | WOp::SilenceButP | WOp::SilenceButQ => {
+                tokio::time::advance(Duration::from_millis(if *op == WOp::Tick { 1000 } else { 60_000 })).await;
                 let mut d = Digest::default();
-                if *op == WOp::Tick {
+                if *op != WOp::SilenceButQ {
                     d.add_node(p.clone(), Heartbeat(hb), 0, 0);
                 }
-                d.add_node(q.clone(), Heartbeat(hb), 0, 0);
+                if *op != WOp::SilenceButP {
+                    d.add_node(q.clone(), Heartbeat(hb), 0, 0);
+                }
                 hb += 1;
                 n.process_message(ChitchatMessage::Syn { cluster_id: "default-cluster".to_string(), digest: d });
             }
+            WOp::ReviveP | WOp::ReviveQ | WOp::ReviveR => {
+                let who = match *op {
+                    WOp::ReviveP => p.clone(),
+                    WOp::ReviveQ => q.clone(),
+                    _ => member(2),
+                };
+                for k in 0..2 {
+                    if k == 1 {
+                        tokio::time::advance(Duration::from_millis(1000)).await;
+                    }
+                    let mut d = Digest::default();
+                    d.add_node(who.clone(), Heartbeat(hb), 0, 0);
+                    hb += 1;
+                    n.process_message(ChitchatMessage::Syn { cluster_id: "default-cluster".to_string(), digest: d });
+                }
+            }
             WOp::Silence => {
                 tokio::time::advance(Duration::from_millis(60_000)).await;
+            }
+            WOp::ResetLower => {
+                let Some(ns) = n.node_state(&p) else { continue };
+                let gc = ns.last_gc_version().max(ns.max_version()) + 1;
+                let mut delta = Delta::default();
+                delta.add_node(p.clone(), gc, 0);
+                delta.add_kv(&p, "low", "x", 1, false);
+                n.process_message(ChitchatMessage::Ack { delta });
+                p_version = 1;
             }
             WOp::SetReady | WOp::TtlReady | WOp::DelReady | WOp::SetOther => {
                 if n.node_state(&p).is_none() {
@@ -1325,13 +1360,16 @@ async fn c13_run(seq: &[WOp], with_pred: bool, r: &mut Report) {
 
 #[tokio::test(start_paused = true)]
 async fn verif_c13_watch() {
-    let len = if tier_thorough() { 7 } else { 6 };
+    let len = if tier_thorough() { 6 } else { 5 };
     let mut r = Report::new(
         "c13_watch",
-        &format!("local node + members P, Q made live by 3 fresh heartbeats 1 s apart; every sequence of up to {len} operations over {{Tick (clock +1 s, fresh heartbeats of P and Q), TickQ (Q only), Silence (clock +60 s), P's copy learns ready=1 / ready expiring (TTL) / ready deleted / another key, local write, key GC pass (grace 1 s), Eval}} ending in Eval, with no extra predicate and with the predicate 'has key ready'; after every Eval the watch value is compared with the live members satisfying the predicate and their current max versions, and a changed (live set, max versions) must have been published; plus seeded sequences of length 14"),
+        &format!("local node + members P, Q made live by 3 fresh heartbeats 1 s apart; every sequence of up to {len} operations over {{Tick (clock +1 s, fresh heartbeats of P and Q), Silence (clock +60 s), silence for everybody but P / but Q, two fresh heartbeats 1 s apart of P / Q / a third member R, P's copy learns ready=1 / ready expiring (TTL) / ready deleted / another key, an ACK resetting P's copy to a lower max version, local write, key GC pass (grace 1 s), Eval}} ending in Eval, with no extra predicate and with the predicate 'has key ready'; after every Eval the watch value is compared with the live members satisfying the predicate and their current max versions, and a changed (live set, max versions) must have been published; plus seeded sequences of length 14"),
         true,
     );
-    let alpha = [WOp::Tick, WOp::TickQ, WOp::Silence, WOp::SetReady, WOp::TtlReady, WOp::DelReady, WOp::SetOther, WOp::SelfSet, WOp::GcKeys, WOp::Eval];
+    let alpha = [
+        WOp::Tick, WOp::Silence, WOp::SilenceButP, WOp::SilenceButQ, WOp::ReviveP, WOp::ReviveQ, WOp::ReviveR, WOp::SetReady, WOp::TtlReady,
+        WOp::DelReady, WOp::SetOther, WOp::ResetLower, WOp::SelfSet, WOp::GcKeys, WOp::Eval,
+    ];
     for with_pred in [false, true] {
         let mut idx: Vec<usize> = vec![0];
         loop {
